@@ -154,6 +154,15 @@ pub fn get_default_severity(code: DiagnosticCode) -> (r: DiagnosticSeverity)
 #[verifier::external_body]
 pub fn vx_string(s: &'static str) -> (r: String) ensures r@ == s@ { s.to_string() }
 
+/// the parse errors the Vfs holds for the model's file (empty when it has none)
+pub uninterp spec fn sp_parse_errors(m: &SemanticModel) -> Seq<LuaParseError>;
+impl SemanticModel {
+    #[verifier::external_body]
+    pub fn get_file_parse_error(&self) -> (r: Option<Vec<LuaParseError>>)
+        ensures r matches Some(v) ==> v@ == sp_parse_errors(self), r is None ==> sp_parse_errors(self).len() == 0,
+    { unimplemented!() }
+}
+
 // `check_file` runs ~50 checkers over the AST; each can only append through `add_diagnostic`
 // (frame: scan in DESIGN §5.C20). Its result is left uninterpreted here.
 #[verifier::external_body]
